@@ -291,6 +291,53 @@ def monitor_split(c):
     return None
 
 
+def retx_stats(c):
+    """leg retx: (pushed records, arrivals of fragments already held while their message is pending,
+    arrivals of fragments of already delivered messages, largest totalFragmentCount)"""
+    held, popped, dups, late = set(), 0, 0, 0
+    for o in c["ops"]:
+        if o["k"] != "push" or o["rec"]["kind"] != "hs":
+            continue
+        for f in o["rec"]["frags"]:
+            k = (f["seq"], f["off"])
+            if f["seq"] < popped:
+                late += 1
+            elif k in held:
+                dups += 1
+            else:
+                held.add(k)
+        popped += len(o["pops"])
+    return len(c["ops"]), dups, late, max([o["cn"] for o in c["ops"]] + [0])
+
+
+def retx_replay(c, rerun):
+    """replay of a retransmission-heavy history: the messages (bodies in hex), the transmission schedule
+    (enough to rebuild every pushed record: one fragment of the sender's partition per record, epoch 0) and
+    the first refused / last ops instead of thousands of op records"""
+    ops = c["ops"]
+    bad = next((i for i, o in enumerate(ops) if o["k"] == "push" and o["res"][2]), None)
+    held, popped = {}, 0
+    upto = bad if bad is not None else len(ops)
+    for o in ops[:upto]:
+        if not o["res"][2]:
+            for f in o["rec"].get("frags", []):
+                if f["seq"] >= popped:
+                    held.setdefault(f["seq"], set()).add(f["off"])
+        popped += len(o["pops"])
+    rp = {"msgs": c["msgs"], "schedule": c.get("retx"), "pushed_records": len(ops),
+          "how": "for every transmission t, for every message (order 'sequential') or fragment index (order "
+                 "'alternating'), Push one epoch-0 handshake record with one fragment of the message cut at msgs[i].mtu, "
+                 "skipping schedule.lost[t]; Pop until nil after every accepted Push",
+          "popped_messages": sum(len(o["pops"]) for o in ops), "rerun": rerun}
+    if bad is not None:
+        rp["first_refused_op"] = {"index": bad, "op": {k: v for k, v in ops[bad].items() if k != "raw"},
+                                  "fragments_held_then": sum(len(v) for k, v in held.items() if k >= popped),
+                                  "bytes_held_then_at_most": sum(m["len"] for m in c["msgs"]),
+                                  "counters_before": [ops[bad - 1]["sz"], ops[bad - 1]["cn"]] if bad else [0, 0]}
+    rp["first_ops"] = ops[:3]
+    return rp
+
+
 def key_of(c):
     h = hashlib.sha256()
     for o in c["ops"]:
@@ -568,13 +615,22 @@ def run(chk):
             first(k_live[4], "trainfrags"), MAX_COUNT + 1, first(k_live[4], "virtualms")))
 
     # (2) generated honest histories
-    for leg in ("many", "multi", "exh", "small", "big"):
+    for leg in ("retx", "many", "multi", "exh", "small", "big"):
         for c in by_leg.get(leg, []):
             m = monitor_bounds(c) or monitor_honest(c, completeness=c["onepar"])
-            if m is None and leg == "many":
+            if m is None and leg in ("many", "retx"):
                 m = monitor_all_bytes(c)
             if m:
                 found_input = True
+                if leg == "retx":
+                    n, dups, late, cn = retx_stats(c)
+                    what = ("%s - retransmission-heavy honest history: messages of %s fragments, %d transmissions, "
+                            "%d records pushed, %d of them duplicates of fragments already held; largest "
+                            "totalFragmentCount %d although at most %d distinct fragments exist" % (
+                                m[1], c["retx"]["frags"], c["retx"]["transmissions"], n, dups, cn, sum(c["retx"]["frags"])))
+                    chk.finding(SITE_POP if m[0] != "push-error" else SITE_PUSH, {"monitor": m[0], "leg": leg}, what,
+                                retx_replay(c, rerun))
+                    break
                 chk.finding(SITE_POP if m[0] != "push-error" else SITE_PUSH, {"monitor": m[0], "leg": leg}, m[1],
                             {"case": strip_case(c), "rerun": rerun})
                 break
@@ -599,10 +655,17 @@ def run(chk):
     if not ok_model:
         chk.broken("model Frag/BufferRun.v no longer compiles", mo)
     else:
-        coq_cases = [c for c in cases if c["leg"] != "big"]
+        rx_cases = [c for c in cases if c["leg"] == "retx"]
+        coq_cases = [c for c in cases if c["leg"] not in ("big", "retx")]
         # heavy cases first so that shards balance
         terms = [ccase(c) for c in coq_cases]
         bad, err = vlib.coq_mismatches("c12b", IMPORTS, "buf_case", "buf_case_ok", terms, shard=250, timeout=1500)
+        if bad is not None and rx_cases:
+            # leg retx: thousands of ops per history, one coqc process per history (all of them are sent)
+            bad_rx, err = vlib.coq_mismatches("c12r", IMPORTS, "buf_case", "buf_case_ok", [ccase(c) for c in rx_cases],
+                                              shard=1, timeout=1500)
+            bad = None if bad_rx is None else bad + [len(coq_cases) + i for i in bad_rx]
+        coq_cases = coq_cases + rx_cases
         if bad is None:
             chk.broken("correspondence evaluation (buffer) failed in coqc", err)
         else:
@@ -611,7 +674,8 @@ def run(chk):
                 m = monitor_bounds(c) or (monitor_honest(c, completeness=c["onepar"]) if c["honest"] else None)
                 chk.finding(SITE_POP, {"monitor": "model-mismatch", "leg": c["leg"]},
                             "FragmentBuffer behaviour differs from Frag/Buffer.v" + (": " + m[1] if m else ""),
-                            {"case": strip_case(c), "correspondence": "Frag.BufferRun.buf_case_ok", "rerun": rerun},
+                            dict(retx_replay(c, rerun) if c["leg"] == "retx" else {"case": strip_case(c), "rerun": rerun},
+                                 correspondence="Frag.BufferRun.buf_case_ok"),
                             no_input=(m is None and not found_input))
         small_splits = [c for c in splits if c.get("frags") is not None and not c.get("err") and not c.get("panic")]
         sterms = [csplit(c) for c in small_splits]
@@ -656,6 +720,43 @@ def run(chk):
                           "non-trivial = every message delivered; completeness monitors + Coq correspondence")
         for leg in ("small", "big"):
             chk.leg_info(leg, messages_per_history=hist(len(c["msgs"]) for c in by_leg.get(leg, [])))
+        rx = by_leg.get("retx", [])
+        rstats = [retx_stats(c) for c in rx]
+        nontriv = [c for c, st in zip(rx, rstats)
+                   if st[1] >= 100 and sum(len(o["pops"]) for o in c["ops"]) == len(c["msgs"])]
+        chk.count("retx", len(rx), [key_of(c) for c in nontriv],
+                  samples=[{"fragments_per_message": c["retx"]["frags"], "mtu": [m["mtu"] for m in c["msgs"]],
+                            "transmissions": c["retx"]["transmissions"], "order": c["retx"]["order"],
+                            "lost_per_transmission": [len(l) for l in c["retx"]["lost"]],
+                            "pushed": st[0], "duplicates_of_held_fragments": st[1],
+                            "retransmissions_of_delivered_messages": st[2], "max_totalFragmentCount": st[3],
+                            "popped": sum(len(o["pops"]) for o in c["ops"])} for c, st in list(zip(rx, rstats))[:3]])
+
+        def bucket(vals, step):
+            h = {}
+            for v in vals:
+                b = v // step * step
+                h[b] = h.get(b, 0) + 1
+            return {"%d-%d" % (b, b + step - 1): h[b] for b in sorted(h)}
+        chk.leg_info("retx", histories=len(rx), sent_to_coq=len(rx),
+                     fragments_per_message=bucket([n for c in rx for n in c["retx"]["frags"]], 50),
+                     messages_per_history=hist(len(c["msgs"]) for c in rx),
+                     transmissions_per_history=hist(c["retx"]["transmissions"] for c in rx),
+                     pushed_records_per_history=bucket([st[0] for st in rstats], 500),
+                     duplicates_of_held_fragments_per_history=bucket([st[1] for st in rstats], 250),
+                     duplicates_per_history_list=sorted(st[1] for st in rstats)[:80],
+                     histories_with_1000_or_more_duplicates=sum(1 for st in rstats if st[1] >= MAX_COUNT),
+                     max_totalFragmentCount_seen=max([st[3] for st in rstats] + [0]),
+                     note="retransmission-heavy honest histories: a flight of 2..3 messages of 100..400 fragments (MTU 1..10, "
+                          "< 1000 distinct fragments) transmitted 3..12 times, 1..3 fragments (mostly of the first message) lost "
+                          "in every transmission but the last, plus 0.5% random loss; sequential or alternating interleaving of "
+                          "the messages; 1000..5000 records per history, every already received fragment arrives again as a "
+                          "duplicate. Monitors: no honest record refused (what is held stays below both limits), every message "
+                          "delivered once in order as soon as complete (monitor_honest completeness + monitor_all_bytes); every "
+                          "history also compared op by op (Push triple, pops, size/count/cursor) with Frag/Buffer.v in Coq, one "
+                          "coqc process per history. non-trivial = at least 100 duplicates of held fragments and every message "
+                          "delivered. Theorems: C12_accounting_exact, C12_duplicate_record_free, C12_refusal_only_at_limits, "
+                          "C12_charge_before_duplicate_check_refuted")
         ms = by_leg.get("multi", [])
         nontriv = [c for c in ms if has_overlap(c)]
         chk.count("multi", len(ms), [key_of(c) for c in nontriv],
@@ -715,6 +816,10 @@ def run(chk):
              "later messages wholly before earlier ones - reverse message order / random permutation across all messages, "
              "with and without every fragment duplicated, < 300 fragments and < 2 kB per history - completeness monitors "
              "and Coq correspondence (the model has no bound on the number of messages other than message_seq < 65536); "
+             "retx: retransmission-heavy honest histories - 2..3 messages of 100..400 fragments (MTU 1..10) transmitted 3..12 "
+             "times with a few fragments lost until the last transmission, 1000..5000 pushed records, hundreds to thousands "
+             "of duplicates of fragments already held - no record may be refused, every message delivered once, in order; "
+             "counters compared with the model after every op (accounting of the fixed limits under duplication); "
              "limits: both resource limits reached; regress: the two formerly failing inputs, run "
              "first; boundary: the liveness boundaries and the epoch splice replayed - safety monitors must hold, the "
              "RFC-completeness monitor (every byte on the wire => delivered) and the epoch-binding monitor feed the known "
